@@ -18,6 +18,10 @@ def site_of(item):
     return None
 
 
+class FloorStop(Exception):
+    pass
+
+
 class Ctx:
     def __init__(self, pid, tier, level, facts=None):
         self.pid = pid
@@ -70,7 +74,11 @@ class Ctx:
         """fail closed if a rule matched fewer instances than counted by hand"""
         self.extra.setdefault("instance_counts", {})[name] = count
         if count < minimum:
-            raise AnchorMissing("instance count `%s` = %d below floor %d" % (name, count, minimum))
+            # a rule that no longer finds the instances counted by hand would pass vacuously: on a changed tree that is a finding about the
+            # change (reported as a violation, exit 1), never a silent pass and not an infrastructure error
+            self.ob("FLOOR", "%s >= %d" % (name, minimum), False, "the rule found only %d instance(s) where %d were confirmed by hand: its subject was "
+                    "removed or rewritten into a shape the rule does not see" % (count, minimum))
+            raise FloorStop(name)
 
     def _samples(self):
         """explicit samples plus one written-out obligation per rule (so every rule is represented)"""
